@@ -135,7 +135,10 @@ func (its *WiredDatatype) checkOptionAndError(ppp *model.PushPullPack) errors.Or
 			return errors.ClientSync.New(its.L(), errOp.GetPushPullError().Msg)
 		}
 		return errors.ClientSync.New(its.L(), "error response without ErrorOperation")
-	} else if ppp.GetPushPullPackOption().HasSubscribeBit() {
+	} else if ppp.GetPushPullPackOption().HasSubscribeBit() &&
+		(its.state == model.StateOfDatatype_DUE_TO_SUBSCRIBE || its.state == model.StateOfDatatype_DUE_TO_SUBSCRIBE_CREATE) {
+		// only a datatype that is still waiting for its subscription is reset: a duplicated or delayed
+		// subscribe response must not wipe a subscribed replica and the operations it has not pushed yet.
 		modelOp := ppp.GetOperations()[0]
 		_, ok := operations.ModelToOperation(modelOp).(*operations.SnapshotOperation)
 		if !ok {
